@@ -186,7 +186,7 @@ PURE = ("::len", "::index", "::index_mut", "::get", "::get_mut", "::split_at", "
         "::as_ptr", "::first", "::last")
 
 
-def _writes_of(effs, hf, F, L):
+def _writes_of(effs, hf, F, L, sizes=None):
     """[(lo, hi_or_None, kind, src, ln)] and [unknown descriptions]"""
     writes, unknown = [], []
     for e in effs:
@@ -221,7 +221,12 @@ def _writes_of(effs, hf, F, L):
                     if ln_:
                         writes.append((d.lo, d.hi, "literal:%s" % s_[1], None, None))
                 else:
-                    writes.append((d.lo, d.hi, "copy", _src_field(s_, hf), None))
+                    fld = _src_field(s_, hf)
+                    # the source is a whole part array (a sub-slice of it would have made the evaluation fail): copy_from_slice
+                    # panics unless the destination has exactly that length
+                    if sizes and fld in sizes and sizes[fld] != d.hi - d.lo:
+                        raise evalx.Panics("copy_from_slice of the %d-byte %s into a %d-byte view" % (sizes[fld], fld, d.hi - d.lo))
+                    writes.append((d.lo, d.hi, "copy", fld, None))
             elif path.endswith(("hex_str::encode_rev_array", "hex_str::encode_array", "hex_str::encode_rev_1")) and len(vals) == 2 and isinstance(vals[0], View):
                 d = vals[0]
                 kind = {"encode_rev_array": "rev_array", "encode_array": "plain_array", "encode_rev_1": "rev_1"}[path.rsplit("::", 1)[-1]]
@@ -299,7 +304,7 @@ def _model(F, name, text):
                 for L in sorted({Ls[0], Ls[-1], Ls[len(Ls) // 2]}):
                     try:
                         ret, effs = effects(S, F, paths, _asg(env, L, mode, text))
-                        w, u = _writes_of(effs, hf, F, L)
+                        w, u = _writes_of(effs, hf, F, L, {"checksum": env["SIZE_CKSUM"], "body": env["SIZE_BODY"]})
                     except evalx.Panics as ex:
                         return None, "%s/%s: a buffer of length %d panics (%s)" % (vname, mode, L, ex)
                     except evalx.Unknown as ex:
